@@ -85,3 +85,15 @@ Definition cov_u (xy : list (Qc * Qc)) : Qc :=
   let mx := (sumQc (map fst xy) / n)%Qc in
   let my := (sumQc (map snd xy) / n)%Qc in
   (sumQc (map (fun t => (fst t - mx) * (snd t - my)) xy) / ofZ (lenZ xy - 1))%Qc.
+
+(* rows that enter matrix entry (i, j): both columns (and the weight, when weights are given) present *)
+Definition unF (v : F) : Qc := match v with Some x => x | None => 0%Qc end.
+Definition rawcol (i : nat) (r : mrow) : F := nth i (mxs r) None.
+Definition pair_valid (weighted : bool) (i j : nat) (r : mrow) : bool :=
+  is_some (rawcol i r) && is_some (rawcol j r) && (negb weighted || is_some (mw r)).
+(* (x_i, x_j, w) of such a row; w = 1 without weights *)
+Definition xyw_of (weighted : bool) (i j : nat) (r : mrow) : Qc * Qc * Qc :=
+  (unF (rawcol i r), unF (rawcol j r), if weighted then unF (mw r) else 1%Qc).
+(* complete rows: every column and the weight present *)
+Definition row_complete (weighted : bool) (r : mrow) : bool :=
+  forallb is_some (mxs r) && (negb weighted || is_some (mw r)).
